@@ -231,6 +231,7 @@ def run_history(cl, be, cls, hist, zV, zK, K, track=False, pickle_hook=None):
             elif op == "combine":
                 S[st[3]] = s.combine([S[o] for o in st[2]])
                 ref.F[st[3]] = list(ref.F[sid]) + [f for o in st[2] for f in ref.F[o]]
+                ref.A[st[3]] = list(ref.A.get(sid, [])) + [a for o in st[2] for a in ref.A.get(o, [])]
                 log.append((i, "constraints", st[3], list(S[st[3]].constraints), ref.conj(st[3])))
             elif op == "merge":
                 conds = A(st[3])
@@ -244,6 +245,7 @@ def run_history(cl, be, cls, hist, zV, zK, K, track=False, pickle_hook=None):
                     ref.F[new] = list(ref.F[st[4]]) + [z3.Or(*zconds)]
                 else:
                     ref.F[new] = [z3.Or(*[z3.And(zc, *ref.F[o]) for zc, o in zip(zconds, alls)])]
+                ref.A[new] = list(m.constraints)
                 log.append((i, "constraints", new, list(m.constraints), ref.conj(new)))
             elif op == "split":
                 parts = s.split()
